@@ -139,7 +139,7 @@ def run(ctx):
         f = m.market_fn(name)
         q = m.qi(f)
         from .stepmodel import fanout_ok
-        ok, c0, detail = fanout_ok(m, q, "order_books", name)
+        ok, c0, detail = fanout_ok(m, q, m.market_books_field(), name)
         ctx.check(ok, "fan-out", "Market::" + name, ctx.loc(f), "Market::%s calls OrderBook::%s for every book (%s)" % (name, name, detail),
                   "Market::%s does not toggle every book: %s" % (name, detail))
         for (getter, owner_field, tgt) in ((m.env_fn, "order_book", m.book_fn(name)), (m.menv_fn, "market", m.market_fn(name))):
